@@ -87,7 +87,38 @@ static Mat grid2d(int nx) {
     m.name = vf::KS() << "grid" << nx << "x" << nx; return m;
 }
 
+static Mat grid3d(int nx, int ny, int nz) {
+    Mat m; m.n = nx * ny * nz; m.ptr.push_back(0);
+    for (int k = 0; k < nz; ++k) for (int j = 0; j < ny; ++j) for (int i = 0; i < nx; ++i) {
+        int c = (k * ny + j) * nx + i;
+        if (k) { m.col.push_back(c - nx * ny); m.val.push_back(-1); }
+        if (j) { m.col.push_back(c - nx); m.val.push_back(-1); }
+        if (i) { m.col.push_back(c - 1); m.val.push_back(-1); }
+        m.col.push_back(c); m.val.push_back(6);
+        if (i + 1 < nx) { m.col.push_back(c + 1); m.val.push_back(-1); }
+        if (j + 1 < ny) { m.col.push_back(c + nx); m.val.push_back(-1); }
+        if (k + 1 < nz) { m.col.push_back(c + nx * ny); m.val.push_back(-1); }
+        m.ptr.push_back((ptrdiff_t)m.col.size());
+    }
+    m.name = vf::KS() << "grid3d_" << nx << "x" << ny << "x" << nz; return m;
+}
+
 struct Cfg { std::string name; boost::property_tree::ptree p; };
+
+// slice C: fill-producing smoothers with non-default fill parameters on larger grids (working rows grow and reallocate)
+static std::vector<Cfg> fill_configs() {
+    std::vector<Cfg> out;
+    struct RP { const char *r; const char *key; int v; };
+    const RP rps[] = {{"iluk","k",1},{"iluk","k",2},{"iluk","k",3},{"ilup","k",1},{"ilup","k",2},{"ilut","p",2},{"ilut","p",4},{"ilu0",nullptr,0},{"spai1",nullptr,0},{"gauss_seidel",nullptr,0},{"chebyshev","degree",4}};
+    for (auto &rp : rps) for (int cls = 0; cls < 2; ++cls) {
+        Cfg g; g.name = vf::KS() << (cls ? "amgfill." : "relaxfill.") << rp.r << (rp.key ? std::string(".") + rp.key + std::to_string(rp.v) : std::string());
+        if (cls) { g.p.put("precond.class", "amg"); g.p.put("precond.relax.type", rp.r); if (rp.key) g.p.put(std::string("precond.relax.") + rp.key, rp.v); g.p.put("precond.coarse_enough", 10); }
+        else { g.p.put("precond.class", "relaxation"); g.p.put("precond.type", rp.r); if (rp.key) g.p.put(std::string("precond.") + rp.key, rp.v); }
+        g.p.put("solver.type", "bicgstab"); g.p.put("solver.maxiter", 10);
+        out.push_back(g);
+    }
+    return out;
+}
 
 static const char *COARS[] = {"ruge_stuben", "aggregation", "smoothed_aggregation", "smoothed_aggr_emin"};
 static const char *RELAX[] = {"gauss_seidel", "ilu0", "iluk", "ilup", "ilut", "damped_jacobi", "spai0", "spai1", "chebyshev"};
@@ -246,6 +277,20 @@ int main(int argc, char **argv) {
             }
         }
         run_batch(batch);
+        {
+            // slice C
+            static std::vector<Mat> big; static std::vector<Cfg> fc = fill_configs();
+            if (big.empty()) { big.push_back(grid3d(4, 5, 6)); big.push_back(grid3d(3, 4, 5)); big.push_back(grid3d(6, 6, 6)); big.push_back(grid2d(9)); big.push_back(grid3d(5, 3, 7)); }
+            for (auto &m : big) for (auto &c : fc) {
+                std::string key = "c10|" + m.name + "|" + c.name;
+                if (!vf::take([&]{ return key; })) continue;
+                vf::nontrivial(vf::hstr(key));
+                batch.push_back(Case{&m, &c, key});
+                if (batch.size() >= 4) run_batch(batch);
+            }
+            run_batch(batch);
+            vf::space("fill-producing smoothers (iluk k=1..3, ilup k=1,2, ilut p=2,4, ilu0, spai1, gauss_seidel, chebyshev) alone and inside amg on 3-D grids 4x5x6, 3x4x5, 6x6x6, 5x3x7 and a 9x9 grid x 7 environment answers");
+        }
         vf::space(vf::KS() << mats.size() << " matrices (all patterns n<=3 x 3 sign rules incl. rows with only positive off-diagonals, 1x1, diagonal, disconnected, small grids) x " << cfgs.size()
                            << " run-time configurations x 7 environment answers (4 heap fill patterns x 3 allocation preludes subset + repetition)");
     }
